@@ -68,6 +68,7 @@ type Engine struct {
 	deadline   time.Time
 	uniqueTab  []uniqueEnt
 	cryptoCounter int
+	initDepth  int // >0 while a package initialiser is being interpreted
 	progress   bool
 	lastTick   time.Time
 }
@@ -405,12 +406,23 @@ func (e *Engine) globalPtr(g *ssa.Global) *PtrV {
 		e.base[id] = e.zero(g.Type().(*types.Pointer).Elem())
 	}
 	e.ensureInit(g.Pkg)
+	if e.pkgState[g.Pkg] == 3 && e.initDepth == 0 && !strings.HasSuffix(g.Name(), "init$guard") {
+		key := g.Pkg.Pkg.Path() + "." + g.Name()
+		if !allowZeroGlobal[key] {
+			panic(e.abort("global %s belongs to a package whose initialiser is not interpreted (would read a zero value)", key))
+		}
+	}
 	return &PtrV{Obj: id}
+}
+
+// allowZeroGlobal lists globals of uninterpreted packages that may be read as zero values.
+var allowZeroGlobal = map[string]bool{
+	"sync.expunged": true, "internal/godebug.empty": true,
 }
 
 // skipInit lists packages whose initialisers are not interpreted (their globals keep zero values unless set by intrinsics).
 var skipInit = map[string]bool{
-	"runtime": true, "os": true, "syscall": true, "internal/poll": true, "net": true, "net/http": true, "crypto/tls": true,
+	"runtime": true, "os": true, "syscall": true, "internal/poll": true, "net": false, "net/http": true, "crypto/tls": true,
 	"reflect": true, "sync": true, "internal/godebug": true, "crypto/rand": true, "math/rand": true, "log": true,
 	"github.com/sirupsen/logrus": true, "internal/cpu": true, "golang.org/x/sys/cpu": true, "crypto/x509": true,
 	"internal/testlog": true, "testing": true, "flag": true, "io/fs": true, "path/filepath": true, "os/exec": true,
@@ -432,7 +444,7 @@ func (e *Engine) ensureInit(pkg *ssa.Package) {
 	path := pkg.Pkg.Path()
 	if skipInit[path] || strings.HasPrefix(path, "crypto/") || strings.HasPrefix(path, "internal/") || strings.HasPrefix(path, "runtime/") || strings.HasPrefix(path, "vendor/") {
 		if !(path == "internal/bytealg" || path == "internal/stringslite" || path == "internal/itoa") {
-			e.pkgState[pkg] = 2
+			e.pkgState[pkg] = 3 // skipped
 			return
 		}
 	}
@@ -447,10 +459,12 @@ func (e *Engine) ensureInit(pkg *ssa.Package) {
 	savedCfg := e.cfg
 	e.cfg.LoopBound = 1 << 30
 	var outs []Outcome
+	e.initDepth++
 	func() {
 		defer func() {
 			e.cfg = savedCfg
 			e.stack = savedStack
+			e.initDepth--
 		}()
 		outs = e.execFunction(init, nil, nil, st)
 	}()
